@@ -1080,9 +1080,16 @@ class Sym:
             off = 1 if params and params[0].get("pat") is None else 0
             full = [None] * off + list(args)
             res = []
-            sub = St(dict(st.env), dict(st.store), st.conds, st.effects, st.n)
+            foreign = bool(self.stack) and cb.get("parent") is not None and cb.get("parent") != self.stack[-1] \
+                and not self.stack[-1].startswith(cb.get("parent") + "::{closure")
+            if foreign:
+                # applied inside another function (a closure passed to a helper): variable ids are per function, so the
+                # helper's locals must not be visible; only the captured values are
+                sub = St({}, {}, st.conds, st.effects, st.n)
+            else:
+                sub = St(dict(st.env), dict(st.store), st.conds, st.effects, st.n)
             for cid, cv in (fval[2] if len(fval) > 2 else ()):
-                if cid not in sub.env:
+                if foreign or cid not in sub.env:
                     sub.env[cid] = cv       # captured value (used when applied outside the defining state)
             outs = [(sub, None)]
             for i, p in enumerate(params):
@@ -1102,6 +1109,10 @@ class Sym:
                         k = VAL
                     if k != VAL:
                         raise Undecidable(n, "loop exit escaping a closure")
+                    if foreign:
+                        s3 = st.copy()
+                        s3.conds, s3.effects, s3.n = s2.conds, s2.effects, s2.n
+                        s2 = s3
                     res.append((s2, (VAL, v)))
             return res
         if fval[0] == "fnref":
